@@ -217,6 +217,17 @@ def s15(rng):
     return "DSPL", cfg, h, True
 
 
+@scen("gamma_pl/global GAUSSIAN, kinematic lens interpolated over the slope")
+def s33(rng):
+    # the global slope also enters a NON-double-source-plane lens whose kinematic scaling is interpolated over gamma_pl
+    lt = rng.choice(["IFUKinCov", "DdtGaussKin", "DsDdsGaussian"])
+    cfg, h = base_cfg(rng, lt)
+    cfg.update(gamma_pl_global_sampling=True, gamma_pl_global_dist="GAUSSIAN")
+    cfg["_grid"] = (["gamma_pl"], [np.linspace(1.5, 2.6, 6)])
+    h["kwargs_lens"].update(gamma_pl_mean=2.05, gamma_pl_sigma=0.08)
+    return lt, cfg, h, True
+
+
 @scen("gamma_pl/global NONE")
 def s16(rng):
     cfg, h = base_cfg(rng, "DSPL")
